@@ -610,7 +610,7 @@ _PURE = {'bin': bin, 'str': str, 'int': int, 'len': len, 'bool': bool, 'hex': he
          'min': min, 'max': max, 'abs': abs, 'ord': ord, 'chr': chr, 'bytearray': bytearray, 'sum': sum, 'float': float,
          'divmod': divmod, 'round': round, 'pow': pow, 'tuple': tuple, 'oct': oct, 'repr': repr, 'format': format}
 _TYPES = {'int': int, 'bool': bool, 'str': str, 'bytes': bytes, 'tuple': tuple, 'list': list, 'dict': dict,
-          'bytearray': bytearray, 'float': float, 'set': set}
+          'bytearray': bytearray, 'float': float, 'set': set, 'slice': slice, 'object': object, 'frozenset': frozenset, 'range': range}
 
 
 def builtin(it, name, args, kw, n):
